@@ -42,6 +42,8 @@ func runT(sc scen) result {
 	var fmu sync.Mutex
 	frng := rand.New(rand.NewSource(rng.Int63()))
 	fault := func(api string) groupfake.Fault { return groupfake.Fault{} }
+	family := false         // the "late answer" family
+	var lateUntil time.Time // (guarded by fmu) when the last delayed answer / close is due
 	policy := func(r *rand.Rand) (int, time.Duration) { return polAfter, ms(rr(r, 300, 600)) }
 	switch kind {
 	case "ok":
@@ -84,6 +86,28 @@ func runT(sc scen) result {
 		if rng.Intn(2) == 0 {
 			fault = func(api string) groupfake.Fault { return groupfake.Fault{Delay: ms(rr(frng, 0, 30))} }
 		}
+	case "late-answer", "late-close":
+		// cancel during a round trip; the broker answers (or closes the connection) LATE:
+		// every call's context ends after d, every request other than Metadata (the pool gets
+		// ready) is answered / dropped 2..4 x d after it arrived
+		family = true
+		ft.add("late-answer-family")
+		d := ms(rr(rng, 10, 40))
+		ft.add("broker=slow")
+		fault = func(api string) groupfake.Fault {
+			if api == "metadata" {
+				return groupfake.Fault{}
+			}
+			f := groupfake.Fault{Delay: d * time.Duration(rr(frng, 2, 4))}
+			if kind == "late-close" {
+				f.Drop = 1 + frng.Intn(2)
+			}
+			if t := time.Now().Add(f.Delay); t.After(lateUntil) {
+				lateUntil = t
+			}
+			return f
+		}
+		policy = func(r *rand.Rand) (int, time.Duration) { return polAfter, d }
 	default:
 		panic("unknown kind " + kind)
 	}
@@ -112,7 +136,13 @@ func runT(sc scen) result {
 	vlogf("scenario %d: mode=t kind=%s dialTO=%v idleTO=%v ttl=%v wd=%v", sc.id, kind, dialTO, idleTO, ttl, e.wd)
 
 	roundTrip := func(r *rand.Rand) func(ctx context.Context) error {
-		switch r.Intn(5) {
+		x := r.Intn(5)
+		if family {
+			// a Metadata request with a topic list is served from the cache: only requests that
+			// go through sendRequest
+			x = 1 + r.Intn(6)
+		}
+		switch x {
 		case 0:
 			return func(ctx context.Context) error {
 				_, err := cl.Metadata(ctx, &kafka.MetadataRequest{Topics: []string{topicT}})
@@ -128,6 +158,16 @@ func runT(sc scen) result {
 		case 3:
 			return func(ctx context.Context) error {
 				_, err := cl.Heartbeat(ctx, &kafka.HeartbeatRequest{GroupID: "g", GenerationID: 1, MemberID: "nobody"})
+				return err
+			}
+		case 5:
+			return func(ctx context.Context) error {
+				_, err := cl.OffsetFetch(ctx, &kafka.OffsetFetchRequest{GroupID: "g", Topics: map[string][]int{topicT: {0, 1}}})
+				return err
+			}
+		case 6:
+			return func(ctx context.Context) error {
+				_, err := cl.FindCoordinator(ctx, &kafka.FindCoordinatorRequest{Key: "g", KeyType: kafka.CoordinatorKeyTypeConsumer})
 				return err
 			}
 		default:
@@ -147,6 +187,9 @@ func runT(sc scen) result {
 
 	ncallers := rr(rng, 1, 3)
 	ncalls := rr(rng, 1, 4)
+	if family {
+		ncalls = rr(rng, 1, 3)
+	}
 	var wg sync.WaitGroup
 	for i := 0; i < ncallers; i++ {
 		wg.Add(1)
@@ -170,6 +213,18 @@ func runT(sc scen) result {
 		k++
 	}
 	wg.Wait()
+	if family && !e.isHung() {
+		// until every delayed answer has been written (every late close has happened), + 30 ms
+		for {
+			fmu.Lock()
+			rest := time.Until(lateUntil) + ms(30)
+			fmu.Unlock()
+			if rest <= 0 {
+				break
+			}
+			time.Sleep(rest)
+		}
+	}
 	if !e.isHung() {
 		if kind == "close-idle" && rng.Intn(2) == 0 {
 			time.Sleep(ms(rr(rng, 0, 2*int(idleTO/time.Millisecond))))
